@@ -512,7 +512,7 @@ func pop64Run(c *Ctx) {
 		if op == "" {
 			create := len(live) < 2 || (len(live) < 6 && r.Chance(0.45))
 			if create {
-				op = []string{"Fresh", "Clone", "And", "Or", "Xor", "AndNot", "Flip", "FastOr", "FastAnd", "ParOr"}[r.Intn(10)]
+				op = []string{"Fresh", "Clone", "And", "Or", "Xor", "AndNot", "Flip", "FastOr", "FastAnd", "ParOr", "Derive", "Derive"}[r.Intn(12)]
 				var res *roaring64.Bitmap
 				var want *ISet
 				sig := "64/create/" + op
@@ -525,6 +525,56 @@ func pop64Run(c *Ctx) {
 						bm.B.SetCopyOnWrite(true)
 					}
 					add(bm)
+				case "Derive":
+					// a relative of an existing bitmap: a clone that loses some WHOLE buckets and gains values in other
+					// buckets (between, below and above the old ones), so that later operations between the two meet
+					// equal buckets, buckets present on one side only and interleaved bucket keys
+					a := r.Intn(len(live))
+					want = live[a].M.Clone()
+					var drop, gain []uint64
+					seenB := map[uint64]bool{}
+					for _, v := range live[a].M.Intervals() {
+						for k := v.Lo >> 32; k <= v.Hi>>32 && len(seenB) < 64; k++ {
+							if !seenB[k] {
+								seenB[k] = true
+								if r.Chance(0.4) {
+									drop = append(drop, k)
+								}
+								if r.Chance(0.4) && k+1 <= max32 {
+									gain = append(gain, k+1)
+								}
+								if r.Chance(0.2) && k > 0 {
+									gain = append(gain, k-1)
+								}
+							}
+						}
+					}
+					if r.Chance(0.5) {
+						gain = append(gain, edgeVal64(r, want)>>32)
+					}
+					c.Step("q%d = Clone(%s) minus whole buckets %v plus values in buckets %v", next, name(a), drop, gain)
+					c.Guard(sig, func() {
+						res = live[a].B.Clone()
+						if live[a].B.GetCopyOnWrite() && r.Chance(0.5) {
+							res.SetCopyOnWrite(true)
+						}
+						for _, k := range drop {
+							if k == max32 {
+								res.RemoveRange(k<<32, maxU64)
+								res.Remove(maxU64)
+							} else {
+								res.RemoveRange(k<<32, (k+1)<<32)
+							}
+							want.RemoveRange(k<<32, k<<32|max32)
+						}
+						for _, k := range gain {
+							for j := 0; j < 1+r.Intn(3); j++ {
+								v := k<<32 | r.Range(0, 200000)
+								res.Add(v)
+								want.Add(v)
+							}
+						}
+					})
 				case "Clone":
 					a := r.Intn(len(live))
 					c.Step("q%d = Clone(%s)", next, name(a))
